@@ -35,7 +35,8 @@ TopoOf(js) ==
       ncpus |-> [n \in nodes |-> ToSet(js.nodes[NodeIdx(js, n)][3])],
       nmem |-> [n \in nodes |-> js.nodes[NodeIdx(js, n)][4]],
       objs |-> {o \in decl : js.objs[ObjIdx(js, o)][2] = 1},
-      ocpus |-> [o \in decl |-> ToSet(js.objs[ObjIdx(js, o)][3])]]
+      ocpus |-> [o \in decl |-> ToSet(js.objs[ObjIdx(js, o)][3])],
+      ohas |-> [o \in decl |-> js.objs[ObjIdx(js, o)][4] = 1]]
 NosOf(js) == [n \in {js.nodes[i][1] : i \in DOMAIN js.nodes} |-> js.nodes[NodeIdx(js, n)][2]]
 \* the projection is self-consistent: distinct nodes, the topology nodeset is the set of their OS indexes,
 \* cpusets inside the machine cpuset
@@ -104,7 +105,7 @@ AdoptWeak(ref) == {<<e.a, e.t>> : e \in {x \in ref : \E y \in ref : y # x /\ y.a
 Holds(b) == b = TRUE
 
 Init == /\ l = 1
-        /\ S = [topo |-> [pus |-> {}, nodes |-> {}, ncpus |-> <<>>, nmem |-> <<>>, objs |-> {}, ocpus |-> <<>>],
+        /\ S = [topo |-> [pus |-> {}, nodes |-> {}, ncpus |-> <<>>, nmem |-> <<>>, objs |-> {}, ocpus |-> <<>>, ohas |-> <<>>],
                 user |-> <<>>, ref |-> {}, weak |-> {}, pool |-> {}]
         /\ nos = <<>> /\ ncs = 0 /\ pend = FALSE
 
@@ -192,18 +193,26 @@ TDup ==
   /\ Holds(DupCheck(T[l]))
   /\ UNCHANGED <<S, nos>>
 
-\* XML export + import: same topology, same attributes (identifiers may be reassigned), same values
+\* XML export + import.  Default format: same topology, same attributes (identifiers may be reassigned), same
+\* values.  v2 format (flag 2): the header warns that it "may miss some details", so nothing is demanded beyond
+\* success; the reloaded store has to be adopted afresh (next event) before anything else is judged.
 XmlCheck(e) ==
   /\ e.ret = 0 /\ e.lret = 0 /\ e.flags \in {0, 2}
-  /\ TopoWF(e.topo) /\ TopoOf(e.topo) = S.topo /\ NosOf(e.topo) = nos
-  /\ Len(e.al) = NPredef + Len(S.user)
-  /\ ToSet(UserOfListing(e.al)) = ToSet(S.user)
+  /\ TopoWF(e.topo)
+  /\ Len(e.al) >= NPredef
   /\ ListingOK(e, UserOfListing(e.al))
+  /\ e.flags = 0 => /\ TopoOf(e.topo) = S.topo /\ NosOf(e.topo) = nos
+                    /\ Len(e.al) = NPredef + Len(S.user)
+                    /\ ToSet(UserOfListing(e.al)) = ToSet(S.user)
+  /\ e.flags = 2 => \A i \in DOMAIN UserOfListing(e.al) : LegalFlags(UserOfListing(e.al)[i].flags)
 TXml ==
-  /\ Running("Xml")
+  /\ IsEvent("Xml") /\ ~pend
   /\ Holds(XmlCheck(T[l]))
-  /\ S' = [S EXCEPT !.user = UserOfListing(T[l].al)]
-  /\ UNCHANGED nos
+  /\ S' = IF T[l].flags = 0 THEN [S EXCEPT !.user = UserOfListing(T[l].al)]
+          ELSE [topo |-> TopoOf(T[l].topo), user |-> UserOfListing(T[l].al), ref |-> {}, weak |-> {}, pool |-> {}]
+  /\ nos' = IF T[l].flags = 0 THEN nos ELSE NosOf(T[l].topo)
+  /\ pend' = (T[l].flags = 2)
+  /\ ncs' = ncs
 
 TRefresh ==
   /\ Running("Refresh")
